@@ -2238,6 +2238,17 @@ func (p *Parser) peekRune() rune {
 	return r
 }
 
+// peekComment reports whether the next two runes that would be read by the
+// scanner start a comment ("/*" or "--").
+func (p *Parser) peekComment() bool {
+	r := p.s.s.r
+	c1, _ := r.read()
+	c2, _ := r.read()
+	r.unread()
+	r.unread()
+	return (c1 == '/' && c2 == '*') || (c1 == '-' && c2 == '-')
+}
+
 func (p *Parser) parseSource(subqueries bool) (Source, error) {
 	m := &Measurement{}
 
@@ -2844,13 +2855,35 @@ func (p *Parser) parseUnaryExpr() (Expr, error) {
 
 // parseRegex parses a regular expression.
 func (p *Parser) parseRegex() (*RegexLiteral, error) {
-	nextRune := p.peekRune()
-	if isWhitespace(nextRune) {
-		p.consumeWhitespace()
+	// Skip whitespace and comments: a comment is equivalent to whitespace
+	// and must not be taken for the start of a regular expression.
+	for {
+		if p.s.n > 0 {
+			// A token has been pushed back: it comes before whatever the
+			// reader would deliver next, so look at it, not at the reader.
+			if tok, _, _ := p.Scan(); tok != WS && tok != COMMENT {
+				p.Unscan()
+				return nil, nil
+			}
+			continue
+		}
+
+		var skip Token
+		if isWhitespace(p.peekRune()) {
+			skip = WS
+		} else if p.peekComment() {
+			skip = COMMENT
+		} else {
+			break
+		}
+		if tok, _, _ := p.Scan(); tok != skip {
+			p.Unscan()
+			return nil, nil
+		}
 	}
 
 	// If the next character is not a '/', then return nils.
-	nextRune = p.peekRune()
+	nextRune := p.peekRune()
 	if nextRune == '$' {
 		// This might be a bound parameter and it might
 		// resolve to a regex.
